@@ -175,6 +175,21 @@ def c04_jobs():
                                  cbmc=["--unwind", str(r + 2), "--unwinding-assertions"], route="bounded",
                                  bound="%d consecutive blocks in one call (the block loop is the same code for every count)" % n,
                                  timeout=300, assumptions=[A_SIMD, A_CVC5]))
+    # T.loop: the block loop for any number of blocks (plain mode + loop contract, inner loops pre-unwound)
+    A_LOOP = "loop contract on the block loop supplied through loops/*.json; inner constant-bound loops unwound by goto-instrument before the contract is applied"
+    jobs.append(dict(name="sha1.T.loop", harness="harness/C04/sha_T_loop.c", mode="plain",
+                     defines=["VF_ALG_SHA1", "VF_T_FN=sha1_transform_generic"], functions=["sha1_transform_generic"],
+                     pre_instrument=[["--unwindset", "sha1_transform_generic.0:65,sha1_transform_generic.1:21,sha1_transform_generic.2:21,"
+                                      "sha1_transform_generic.3:21,sha1_transform_generic.4:21,sha1_memcpy_bswap.0:17", "--unwinding-assertions"]],
+                     loops="loops/hash_sha1_transform_loop.json", cbmc=[], trace=False, route="unbounded", timeout=1500,
+                     assumptions=[A_SIMD, A_LOOP]))
+    jobs.append(dict(name="sha2_b${B}.T.loop", harness="harness/C04/sha_T_loop.c", mode="plain",
+                     defines=["VF_ALG_SHA2", "VF_BLK=${B}", "VF_T_FN=${FN}"], functions=["${FN}"],
+                     pre_instrument=[["--unwindset", "${FN}.0:${U0},${FN}.1:${U1},sha2_memcpy_bswap${BS}.0:17", "--unwinding-assertions"]],
+                     loops="loops/hash_sha2_transform_loop.json", cbmc=[], trace=False, route="unbounded",
+                     tier="${TIER}", timeout=3600, assumptions=[A_SIMD, A_LOOP],
+                     foreach=[dict(B=64, FN="sha2_transform_block64_generic", U0=49, U1=65, BS=4, WT="unsigned int", MASK=63, HB=32, WB=256, TIER="quick"),
+                              dict(B=128, FN="sha2_transform_block128_generic", U0=65, U1=81, BS=8, WT="unsigned long", MASK=127, HB=64, WB=640, TIER="thorough")]))
     a = ALGS["sha1"]
     jobs += u_jobs("sha1", a, [a["D"]], 64, 8)
     jobs += if_jobs("sha1", "sha1", a, [a["D"]], 64)
@@ -204,7 +219,39 @@ def gost_jobs():
                           tier=tier, timeout=timeout, extra=dict(assumptions=[A_SIMD, A_CVC5, A_TAB])))
     T("g0", ["VF_T1"], t1)
     T("g0.dispatch", ["VF_T1"], "gost3411_2012_transform_1")
-    # g_N with the N / Sigma updates against the specification does not close (cvc5: error after 17 min): not registered
+    # the g_N step, modular: adders and XSLP under their own contracts, then pure composition
+    jobs.append(dict(name="gost.addmod512", harness="harness/C04/gost_addmod.c", mode="plain", defines=[],
+                     functions=["gost3411_2012_addmod512", "gost3411_2012_addmod512_digit"],
+                     cbmc=["--unwind", "10", "--unwinding-assertions"], route="finite", timeout=600, assumptions=[]))
+    for nm, defs, fn in (("add512", [], "gost3411_2012_addmod512"), ("add512_digit", ["VF_GOST_ADD_DIGIT"], "gost3411_2012_addmod512_digit")):
+        jobs.append(dict(name="gost." + nm, harness="harness/C04/gost_T.c", defines=["VF_GOST_T", "VF_GOST_ADD", "VF_GOST_ADD_ENFORCE"] + defs,
+                         enforce=[fn], functions=[fn], cbmc=["--unwind", "10", "--unwinding-assertions"], route="finite", timeout=300,
+                         assumptions=["stated against the specification's 512-bit addition vf_gost_add512 (specs/gost3411_spec.h)"]))
+    for k in (1, 2, 3, 4):
+        jobs.append(t_job("gost.XSLP.s%d" % k, "harness/C04/gost_T.c", ["VF_GOST_T", "VF_GOST_XSLP=%d" % k], "gost3411_2012_XSLP", 64,
+                          timeout=900, extra=dict(assumptions=[A_SIMD, A_CVC5, A_TAB])))
+    A_ORACLE = ("gost3411_2012_XSLP replaced (goto-instrument --replace-call-with-contract, no --dfcc) by its contract in lock-step-oracle form "
+                "(specs/gost3411_spec.h, VF_GOST_LPS_ORACLE): the composition is proved for every function LPS; the contract for the standard's LPS "
+                "is discharged by jobs gost.XSLP.s1..s4, the adders by gost.add512*, gost.addmod512")
+    def COMP(name, defs, tier="quick", small=False):
+        jobs.append(dict(name="gost.T.gN." + name, harness="harness/C04/gost_T_comp.c", mode="plain",
+                         defines=defs + (["GOST3411_2012_USE_SMALL_TABLES"] if small else []),
+                         functions=["gost3411_2012_transform_n_generic", "gost3411_2012_transform_n"],
+                         pre_instrument=[["--replace-call-with-contract", "gost3411_2012_XSLP"]],
+                         cbmc=["--unwind", "66", "--unwinding-assertions", "--object-bits", "10"], route="finite",
+                         tier=tier, timeout=900, assumptions=[A_SIMD, A_ORACLE]))
+    COMP("align0", [])
+    COMP("align1", ["VF_ALIGN=1"])
+    COMP("dispatch.n2", ["VF_T_NBLK=2", "VF_T_FN=gost3411_2012_transform_n"])
+    for r in (2, 3, 4, 5, 6, 7):
+        COMP("align%d" % r, ["VF_ALIGN=%d" % r], tier="thorough")
+    # small-table build variant
+    jobs.append(dict(name="gost.small.tables", harness="harness/C04/gost_T.c", mode="plain",
+                     defines=["VF_GOST_T", "VF_GOST_TABLES", "GOST3411_2012_USE_SMALL_TABLES"], functions=[],
+                     cbmc=["--unwind", "260", "--unwinding-assertions"], route="finite", timeout=300,
+                     assumptions=["-DGOST3411_2012_USE_SMALL_TABLES build: sbox, A, tau (table form) and C compared entry by entry with RFC 6986 5.2-5.5"]))
+    COMP("small.align0", [], small=True)
+    COMP("small.align1", ["VF_ALIGN=1"], small=True)
     gu = u_jobs("gost", a, [a["D"]], 64, 0)
     for j in gu:
         if ".U.safety" in j["name"]:  # symbolic tail: MiniSat > 15 min
